@@ -211,7 +211,7 @@ Print Assumptions C15_shipped_definitions.
     obtained from the signature-level definitions [ds] of this file (parameters := what [get_named_parameters] returns;
     [hv] / [ax] / [fs] = the hyper-parameter values, axis flags and node functions the DAG never looks at).
     Qualified names: [DagState.vdef] is not the [vdef] of this file. *)
-From Leaspy Require Compose.DagState Compose.FromDictState Compose.FromDictStateProofs Compose.FromDictStateExamples
+From Leaspy Require State.StateModel State.StateNow Compose.DagState Compose.FromDictState Compose.FromDictStateProofs Compose.FromDictStateExamples
                     Compose.FromDictStateShipped.
 
 (** The [direct_ancestors] mapping [from_dict] derives from the signatures IS [dag_of_defs] of the State-level definitions,
@@ -239,3 +239,24 @@ Theorem C15_shipped_definitions_state :
     exists r, from_dict ds = FOk r /\ FromDictState.state_sound_from_definitions ds r.
 Proof. exact FromDictStateShipped.shipped_definitions_state_sound. Qed.
 Print Assumptions C15_shipped_definitions_state.
+
+(** Non-vacuity of the conclusion, on the FIRST regenerated shipped definition list ([FromDictStateShipped.sh_ds]; integer
+    values, hyper-parameters = 1, node [i] = [i] + the sum of its arguments): it is accepted, has linked and settable variables;
+    after "fork on; every settable variable := 2" EVERY variable reads [Ok v], and [v] is the from-scratch value
+    ([C01_never_stale_full_reverts_from_definitions] applied).  The statement mentions no value: it survives regeneration. *)
+Theorem C15_shipped_first_history :
+  from_dict FromDictStateShipped.sh_ds = FOk FromDictStateShipped.sh_r /\
+  (0 <? StateModel.gn FromDictStateShipped.sh_g)
+    && existsb (StateModel.linked FromDictStateShipped.sh_g) (seq 0 (StateModel.gn FromDictStateShipped.sh_g))
+    && existsb (StateModel.settable FromDictStateShipped.sh_g) (seq 0 (StateModel.gn FromDictStateShipped.sh_g)) = true /\
+  exists st,
+    nth_error (fst (StateNow.run_now FromDictStateShipped.sh_g FromDictStateShipped.sh_sem
+                      (StateModel.init_store FromDictStateShipped.sh_g) FromDictStateShipped.sh_ops)) 0 = Some st /\
+    forall i, i < StateModel.gn FromDictStateShipped.sh_g -> exists v,
+      snd (StateNow.step_now FromDictStateShipped.sh_g FromDictStateShipped.sh_sem
+             (fst (StateNow.run_now FromDictStateShipped.sh_g FromDictStateShipped.sh_sem
+                     (StateModel.init_store FromDictStateShipped.sh_g) FromDictStateShipped.sh_ops))
+             (StateModel.Get 0 i)) = StateModel.Ok v /\
+      StateModel.scratch FromDictStateShipped.sh_g (StateModel.values st) i = Some v.
+Proof. exact FromDictStateShipped.shipped_first_history. Qed.
+Print Assumptions C15_shipped_first_history.
